@@ -79,15 +79,19 @@ class GenericCallAdapter(Adapter):
     def items(cls, value, node):
         new_args, new_kwargs = cls.arguments(value)
 
-        if node is not None:
-            assert isinstance(node, ast.Call)
-            assert all(kw.arg for kw in node.keywords)
+        if (
+            isinstance(node, ast.Call)
+            and all(kw.arg for kw in node.keywords)
+            and not any(isinstance(arg, ast.Starred) for arg in node.args)
+        ):
             kw_arg_node = {kw.arg: kw.value for kw in node.keywords if kw.arg}.get
 
             def pos_arg_node(pos):
-                return node.args[pos]
+                return node.args[pos] if pos < len(node.args) else None
 
         else:
+            # no node, or the value is not written as a plain constructor call
+            # (`snapshot(CONSTANT)`, `T(*args)`): there are no nodes for the arguments
 
             def kw_arg_node(_):
                 return None
